@@ -212,7 +212,7 @@ def build(desc: dict, leaves=None) -> Built:
 class _Gen:
     """Incremental generator: executes while generating, so shapes are known."""
 
-    def __init__(self, rng, dtype, values, deps, ancestors, smooth=False):
+    def __init__(self, rng, dtype, values, deps, ancestors, smooth=False, linear=False):
         self.rng = rng
         self.dtype = dtype
         self.values = values            # tensors or tuples
@@ -220,6 +220,7 @@ class _Gen:
         self.anc = ancestors            # list[frozenset] of value indices
         self.nodes = []
         self.smooth = smooth
+        self.linear = linear  # only ops whose backward nodes save no tensors (add/sub/neg/shape ops): nothing is ever freed
 
     def tensor_ids(self):
         return [i for i, v in enumerate(self.values) if not isinstance(v, tuple)]
@@ -251,6 +252,9 @@ class _Gen:
         else:
             pool = OTHER
         op = pool[rng.integers(len(pool))]
+        if self.linear:
+            lin = ["add", "sub", "neg", "flatten", "sumall", "catflat", "t", "unsq", "stride2", "expand2", "sumdim", "add", "sub"]
+            op = lin[rng.integers(len(lin))]
         if self.smooth and op in ("relu", "abs", "lrelu"):
             op = "tanh"
         node = {"op": op, "args": []}
@@ -309,7 +313,7 @@ def _rand_leaf_descs(rng, n, p_rg=0.85):
 
 
 def gen_program(rng, dtype="float64", n_leaves=None, n_nodes=None, n_outputs=None, smooth=False,
-                max_out_scalars=6, leaf_descs=None, vseed=None) -> dict:
+                max_out_scalars=6, leaf_descs=None, vseed=None, linear=False) -> dict:
     """A random program for backward(): leaves, nodes, 1..3 outputs requiring grad."""
     fixed_leaves, fixed_seed = leaf_descs, vseed
     for _ in range(50):
@@ -322,7 +326,7 @@ def gen_program(rng, dtype="float64", n_leaves=None, n_nodes=None, n_outputs=Non
         tdt = DT[dtype]
         leaves = make_leaves(leaf_descs, vseed, tdt)
         deps = [frozenset([i]) if leaf_descs[i]["rg"] else frozenset() for i in range(nl)]
-        g = _Gen(rng, tdt, list(leaves), deps, [frozenset() for _ in range(nl)], smooth=smooth)
+        g = _Gen(rng, tdt, list(leaves), deps, [frozenset() for _ in range(nl)], smooth=smooth, linear=linear)
         target = int(n_nodes or rng.integers(1, 9))
         tries = 0
         while len(g.nodes) < target and tries < 40:
@@ -405,7 +409,7 @@ def build_mtl(desc: dict, cut: bool = False, shared=None, pool=None) -> BuiltMTL
 
 def gen_mtl_program(rng, dtype="float64", n_heads=None, n_features=None, allow_around=False,
                     share_pool=True, disjoint_heads=False, shared_descs=None, pool_descs=None, vseed=None,
-                    allow_around_values=False) -> dict:
+                    allow_around_values=False, linear=False) -> dict:
     """Trunk (shared leaves -> 1..3 mutually independent features) and 1..4 heads ending in a 0-d loss.
 
     Leaf naming inside `deps`: ("s", i) trunk leaf, ("p", i) pool leaf.
@@ -422,7 +426,7 @@ def gen_mtl_program(rng, dtype="float64", n_heads=None, n_features=None, allow_a
             shared = _rand_leaf_descs(rng, ns, p_rg=0.9)
         sl = make_leaves(shared, vseed, tdt, tag=0)
         deps = [frozenset([("s", i)]) if shared[i]["rg"] else frozenset() for i in range(ns)]
-        g = _Gen(rng, tdt, list(sl), deps, [frozenset() for _ in range(ns)])
+        g = _Gen(rng, tdt, list(sl), deps, [frozenset() for _ in range(ns)], linear=linear)
         target = int(rng.integers(1, 7))
         tries = 0
         while len(g.nodes) < target and tries < 30:
@@ -484,7 +488,7 @@ def gen_mtl_program(rng, dtype="float64", n_heads=None, n_features=None, allow_a
             if not any(base_deps):
                 ok = False
                 break
-            hg = _Gen(rng, tdt, list(base_vals), list(base_deps), [frozenset() for _ in base_vals])
+            hg = _Gen(rng, tdt, list(base_vals), list(base_deps), [frozenset() for _ in base_vals], linear=linear)
             tgt = int(rng.integers(1, 6))
             tries = 0
             while len(hg.nodes) < tgt and tries < 30:
@@ -618,3 +622,30 @@ def _is_tuple_value(desc, idx):
 def _value_sizes(desc):
     b = build(desc)
     return [0 if isinstance(v, tuple) else v.numel() for v in b.values]
+
+
+def freed_signature(roots) -> list:
+    """Per node of the autograd graph (BFS order from the roots): which saved fields are live / freed / plain values.
+
+    A node fails in a further differentiation iff its saved tensors were released (getattr raises RuntimeError)."""
+    seen, order, queue = set(), [], []
+    for r in roots:
+        fn = r.grad_fn if isinstance(r, torch.Tensor) else r
+        if fn is not None and id(fn) not in seen:
+            seen.add(id(fn))
+            queue.append(fn)
+    while queue:
+        n = queue.pop(0)
+        st = []
+        for a in sorted(x for x in dir(n) if x.startswith("_saved_")):
+            try:
+                v = getattr(n, a)
+                st.append((a, "live" if isinstance(v, torch.Tensor) or (isinstance(v, (list, tuple)) and any(isinstance(x, torch.Tensor) for x in v)) else "plain"))
+            except RuntimeError:
+                st.append((a, "freed"))
+        order.append((type(n).__name__, tuple(st)))
+        for child, _ in n.next_functions:
+            if child is not None and id(child) not in seen:
+                seen.add(id(child))
+                queue.append(child)
+    return order
